@@ -194,8 +194,10 @@ def run(chk, w):
             bad, ok = walk_fn(fn_, True, from_entry=is_helper)
             must_clear[n] = ok
     chk.extra['helpers_that_always_empty_the_list'] = dict(must_clear)
+    from .. import inline
     for n in sorted(may_free):
-        f = P.functions[n]
+        # static helpers of the same file are looked through (the clearing may have been moved into one)
+        f = inline.expanded(P, n)
         bad, ok = walk_fn(f, False)
         callers = [cf for cf, ci in P.callers().get(n, []) if cf.name in may_free or True]
         # a helper that may leave a pending free is judged at its callers (they may clear afterwards)
